@@ -300,10 +300,14 @@ Section PackShare.
     (* VSeq *)
     - (* TSeq *)
       assert (Hl: (l <? n0) = true) by (simpl in Ho; apply andb_prop in Ho; tauto).
+      assert (Hk: origin_eqb o OList = true -> k = KList).
+      { intros Ho'. simpl in Hc. apply andb_prop in Hc. destruct Hc as [Hk _].
+        destruct o; try discriminate Ho'. destruct k; try discriminate Hk. reflexivity. }
       assert (Hxs: Forall (fun x => forall m, n0 <= m ->
                  let (y, m') := run_pack E x call (cp E N hsup t') m in
                  maxold n0 y = byref E (ident E) x call N hsup t' /\ m <= m') xs).
       { simpl in Hc, Ho, Hu. apply andb_prop in Ho. destruct Ho as [_ Ho].
+        apply andb_prop in Hc. destruct Hc as [_ Hc].
         apply forallb_Forall in Hc. apply forallb_Forall in Ho. apply forallb_Forall in Hu.
         pose proof (Forall_and _ _ _ (Forall_and _ _ _ (Forall_and _ _ _ IH Hc) Ho) Hu) as H.
         eapply Forall_impl; [| exact H]. intros x [[[Hx Hcx] Hox] Hux] m Hm. apply Hx; auto. }
@@ -320,7 +324,7 @@ Section PackShare.
           { clear -Hxs Hid Hn. rewrite Hid in Hxs. induction Hxs as [| x r Hx Hr IHr]; simpl; [reflexivity |].
             specialize (Hx n Hn). rewrite rp_id in Hx. destruct Hx as [Hx _]. now rewrite Hx, IHr. }
           destruct (origin_eqb o OList).
-          -- simpl. rewrite (fresh_not_old n0 n Hn). split; [exact Hflat | lia].
+          -- rewrite (Hk eq_refl). simpl. rewrite (fresh_not_old n0 n Hn). split; [exact Hflat | lia].
           -- rewrite Hid. simpl.
              pose proof (map_st_flat (fun x => run_pack E x call IId) (maxold n0)
                            (fun x => byref E (ident E) x call N hsup t') n0 xs) as HM.
@@ -337,6 +341,7 @@ Section PackShare.
                  let (y, m') := run_pack E x call (cp E N hsup t') m in
                  maxold n0 y = byref E (ident E) x call N hsup t' /\ m <= m') xs).
       { simpl in Hc, Ho, Hu. apply andb_prop in Ho. destruct Ho as [_ Ho].
+        apply andb_prop in Hc. destruct Hc as [_ Hc].
         apply forallb_Forall in Hc. apply forallb_Forall in Ho. apply forallb_Forall in Hu.
         pose proof (Forall_and _ _ _ (Forall_and _ _ _ (Forall_and _ _ _ IH Hc) Ho) Hu) as H.
         eapply Forall_impl; [| exact H]. intros x [[[Hx Hcx] Hox] Hux] m Hm. apply Hx; auto. }
@@ -354,7 +359,7 @@ Section PackShare.
         pose proof (Forall_and _ _ _ IH Ho) as H.
         eapply Forall_impl; [| exact H]. intros x [Hx Hox] t m Hcx Hm.
         apply andb_prop in Hcx. destruct Hcx as [Hcx Hux]. apply Hx; auto. }
-      simpl in Hc, Hu. pose proof (zip_all_and _ _ _ _ Hc Hu) as Hcu.
+      simpl in Hc, Hu. apply andb_prop in Hc. destruct Hc as [_ Hc]. pose proof (zip_all_and _ _ _ _ Hc Hu) as Hcu.
       pose proof (zip_st_flat (fun x t => run_pack E x call (cp E N hsup t)) (maxold n0)
                     (fun x t => byref E (ident E) x call N hsup t)
                     (fun x t => conforms E x t && udet E x call N hsup t) n0 xs Hxs ts (S n) Hcu ltac:(lia)) as HM.
@@ -377,6 +382,7 @@ Section PackShare.
                  = (let (k0, x) := kv in byref E (ident E) k0 call N hsup kt ++ byref E (ident E) x call N hsup vt)
                  /\ m <= m') kvs).
       { simpl in Hc, Ho, Hu. apply andb_prop in Ho. destruct Ho as [_ Ho].
+        apply andb_prop in Hc. destruct Hc as [_ Hc].
         apply forallb_Forall in Hc. apply forallb_Forall in Ho. apply forallb_Forall in Hu.
         pose proof (Forall_and _ _ _ (Forall_and _ _ _ (Forall_and _ _ _ IH Hc) Ho) Hu) as H.
         eapply Forall_impl; [| exact H]. intros [k0 x] [[[[Hk Hx] Hcx] Hox] Hux] m Hm. simpl in *.
@@ -673,13 +679,14 @@ Section UnionFree.
       intros call N hsup t; induction t as [| lk | | | t' IHt | o t' IHt | t' IHt | ts IHts | o kt IHk vt IHv | c0 | tw IHw | us IHus |] using ty_ind';
       intros Hf Hc; try (apply IHw; auto; fail); try (apply IHt; auto; fail);
       simpl in Hf; try discriminate Hf; simpl in Hc; try discriminate Hc; try reflexivity.
-    - simpl. apply forallb_forall. intros x Hx. rewrite Forall_forall in IH.
+    - simpl. apply andb_prop in Hc. destruct Hc as [_ Hc]. apply forallb_forall. intros x Hx. rewrite Forall_forall in IH.
       apply IH; auto. rewrite forallb_forall in Hc. now apply Hc.
-    - simpl. apply forallb_forall. intros x Hx. rewrite Forall_forall in IH.
+    - simpl. apply andb_prop in Hc. destruct Hc as [_ Hc]. apply forallb_forall. intros x Hx. rewrite Forall_forall in IH.
       apply IH; auto. rewrite forallb_forall in Hc. now apply Hc.
-    - simpl. apply (zip_all_impl (conforms E) _ unionfree xs) with (ts := ts); auto.
+    - simpl. apply andb_prop in Hc. destruct Hc as [_ Hc].
+      apply (zip_all_impl (conforms E) _ unionfree xs) with (ts := ts); auto.
       eapply Forall_impl; [| exact IH]. intros x Hx t Ht Hcx. apply Hx; auto.
-    - simpl. apply andb_prop in Hf. destruct Hf as [Hfk Hfv].
+    - simpl. apply andb_prop in Hf. destruct Hf as [Hfk Hfv]. apply andb_prop in Hc. destruct Hc as [_ Hc].
       apply forallb_forall. intros [a b] Hx. rewrite Forall_forall in IH. destruct (IH (a, b) Hx) as [IHa IHb].
       rewrite forallb_forall in Hc. specialize (Hc (a, b) Hx). simpl in *.
       apply andb_prop in Hc. destruct Hc as [Hca Hcb]. rewrite IHa, IHb; auto.
